@@ -142,6 +142,15 @@ def gen_c01(tier, seed, native=True):
                         d["n"] = min(d["n"], 3)
                     out.append(line(d))
                     idx += 1
+    # tuned runs on several threads with plain-data inputs and outputs (nothing to drop, so only the identity of the values tells
+    # whose they are): long tuning rounds in which the threads overlap
+    for k in range(16 if tier == "quick" else 300):
+        entry = rng.choice([2, 4])
+        d = {"id": idx, "entry": entry, "T": rng.choice([2, 2, 3, 4]), "n": rng.choice([2, 4, 8]), "seed": rng.randrange(1 << 30), "cbase": rng.choice([1, 2]),
+             "q": 1, "delta": 1, "freq": 10 ** 9, "ishape": rng.choice(["s", "u"]), "oshape": rng.choice(["z", "s"]), "gcost": rng.choice([0, 1]), "fplog": 0,
+             "_novos": k % 4 != 3}
+        out.append(line(d))
+        idx += 1
     # panic plans: the benchmarked function panics at every call index of the first two rounds; all threads alike
     npanic = 60 if tier == "quick" else 2000
     for _ in range(npanic):
@@ -745,6 +754,9 @@ def gen_c11_e2e(tier, seed):
             span = max(2, d["n"] * d["s"] * d["cbase"])
             d["base"] = rng.choice([2 ** 63 - rng.randrange(1, span), 2 ** 63 - rng.randrange(1, span), 2 ** 63 - max(1, d["cbase"] // 2), 2 ** 63,
                                     2 ** 62 - 5, 2 ** 63 + 2 ** 62, 2 ** 64 - 2 ** 46])
+        if idx % 5 == 2 and f >= 1000:
+            # a clock too coarse to see the sample (explicit sample size: nothing is clamped): readings b <= a give exactly 0
+            d.update({"q": rng.choice([100, 1000, 10 ** 4]), "cbase": rng.choice([0, 1, 3]), "cstep": 0, "n": rng.choice([5, 9, 16]), "s": rng.choice([1, 2])})
         if idx % 5 == 4:
             # the OS-timer arm on the scripted source (1 tick = 1 ns), with spans up to and beyond 2^64 ps
             d.update({"tsc": 0, "vos": 1, "T": 1, "s": 1, "cbase": rng.choice([1000, 2 ** 40, 2 ** 54, 2 ** 55, 2 ** 60]), "cstep": rng.choice([0, 1]), "n": rng.choice([2, 3])})
